@@ -72,7 +72,7 @@ def main():
             na.append({'property_id': pid, 'reason': NOT_APPLICABLE.get(pid, PENDING)})
     m = {
         'version': 1,
-        'setup_cmd': 'cd /verif/driver && CARGO_NET_OFFLINE=true cargo build --release --offline && cd /verif && python3 analysis/extract.py default',
+        'setup_cmd': 'cd /verif/driver && CARGO_NET_OFFLINE=true cargo build --release --offline && cd /verif && python3 analysis/extract.py default && python3 analysis/extract.py no-default',
         'hooks': {
             'guard': 'jsonb_verif',
             'enable': 'none needed: the checks analyse /repo\'s own sources through a rustc_private driver injected with RUSTC_WORKSPACE_WRAPPER; nothing is compiled into /repo',
@@ -86,7 +86,7 @@ def main():
         ],
         'checks': checks,
         'not_applicable': na,
-        'notes': 'Every check decides structural clauses of its property from /repo\'s current source (type-checked MIR); behavioural cores that no sound static argument in reach decides are named in DESIGN.md §5 and in each evidence file. fix: commits in /repo are listed in known_findings.json with status fixed.',
+        'notes': 'quick = every rule of the property over the default build configuration; thorough = the same rules additionally over --no-default-features, plus a self-test of the check on scratch copies of /repo\'s working tree against the committed corpora (seeded/: property-breaking changes it must report; benign/: behaviour-preserving changes it must stay quiet on; mismatches are SELFTEST-WARNING lines and never change the verdict). Verdicts per obligation: proved / assumed (assume.json) / undecided (code not in a shape the rule reads; exit code unaffected) / violation. Every check decides structural clauses of its property from /repo\'s current source (type-checked MIR); behavioural cores that no sound static argument in reach decides are named in DESIGN.md §5 and in each evidence file. fix: commits in /repo are listed in known_findings.json with status fixed.',
     }
     json.dump(m, open(os.path.join(V, 'MANIFEST.json'), 'w'), indent=1)
     print('claimed', len(checks), 'not_applicable', len(na))
